@@ -612,7 +612,7 @@ func (g *generator) genCase(prof string) ([]*pvcase.Case, *caseGen) {
 		o.Debug = g.chance(0.04)
 		o.Stats = g.chance(0.15)
 	}
-	divergent := false
+	divergent, lrBudget := false, false
 	switch prof {
 	case "core":
 		if g.chance(0.15) {
@@ -652,7 +652,9 @@ func (g *generator) genCase(prof string) ([]*pvcase.Case, *caseGen) {
 	case "budget":
 		o.Recover = g.chance(0.5)
 		o.Memoize = false
-		divergent = g.chance(0.3)
+		// the seed-growing loop under a budget: every attempt, the discarded one included, is charged
+		lrBudget = fl.LeftRec && g.chance(0.35)
+		divergent = !lrBudget && g.chance(0.3)
 		if divergent {
 			o.MaxExpr = g.budget()
 			cg.f.wild = g.chance(0.5) // a random unrestricted grammar instead of a template
@@ -668,7 +670,7 @@ func (g *generator) genCase(prof string) ([]*pvcase.Case, *caseGen) {
 	for attempt := 0; ; attempt++ {
 		cg.dupActs = nil
 		switch {
-		case prof == "lr":
+		case prof == "lr" || lrBudget:
 			cg.lrGrammar()
 		case divergent && !cg.f.wild:
 			cg.divergentGrammar()
@@ -690,7 +692,7 @@ func (g *generator) genCase(prof string) ([]*pvcase.Case, *caseGen) {
 				cg.rules[0].Expr = e
 			}
 		}
-		if prof != "lr" && !divergent && cg.f.act && cg.f.errP > 0 && len(cg.rules) >= 2 && cg.chance(0.12) {
+		if prof != "lr" && !lrBudget && !divergent && cg.f.act && cg.f.errP > 0 && len(cg.rules) >= 2 && cg.chance(0.12) {
 			cg.dupErrShape()
 		}
 		c.Grammar.Rules = cg.rules
